@@ -81,7 +81,24 @@ theorem nameIndex_of_distinct : ∀ (ns : List Bytes) (i : Nat) (k : Bytes), dis
 theorem keyDe_keyText (k : KeyKind) (a : TVal) (hk : keyFrag k = true) (h : wfKey k a = true) :
     FromValue.keyDe k (Model.TypedSer.keyText k a) = .ok a := by
   cases k with
-  | int w => simp [keyFrag] at hk
+  | int w =>
+    cases a with
+    | int n =>
+      simp only [wfKey] at h
+      simp only [Model.TypedSer.keyText, FromValue.keyDe]
+      by_cases hn : n < 0
+      · have hshape : KeyShape (Spec.Number.decimal n) true (Spec.Number.natDigits n.natAbs) :=
+          ⟨canon_natDigits _, by simp [Spec.Number.decimal, hn]⟩
+        rw [keyInt_value_shape w _ _ _ hshape, SJ.Proofs.RoundTripNum.natOfDigits_natDigits]
+        have h0 : n.natAbs ≠ 0 := by omega
+        have e : (-(n.natAbs : Int)) = n := by omega
+        simp [keySpec, h0, e, FromValue.visitInt, h]
+      · have hshape : KeyShape (Spec.Number.decimal n) false (Spec.Number.natDigits n.natAbs) :=
+          ⟨canon_natDigits _, by simp [Spec.Number.decimal, hn]⟩
+        rw [keyInt_value_shape w _ _ _ hshape, SJ.Proofs.RoundTripNum.natOfDigits_natDigits]
+        have e : ((n.natAbs : Nat) : Int) = n := by omega
+        simp [keySpec, e, FromValue.visitInt, h]
+    | _ => simp [wfKey] at h
   | string => cases a <;> simp_all [wfKey, Model.TypedSer.keyText, FromValue.keyDe]
   | bool =>
     cases a <;> simp_all [wfKey, Model.TypedSer.keyText, FromValue.keyDe]
